@@ -601,6 +601,13 @@ func checkC15(e *Engine, r *Report) {
 		r.Check(okSt, "DestroyAccount › every storage key deleted", e.Pos(da.Pos()), "ForEachStorage(addr, key → SetState(key, nil); continue)", "an exit of DestroyAccount keeps storage entries (iteration stopped early, not every key deleted, not executed, or Keeper.ForEachStorage filters entries before the callback — e.g. skips cleared slots, which are real store entries here)")
 	})
 
+	r.Rule("R7", "ALIASING", "an account is deleted at commit only if its self-destruct survived: the self-destruct marks are snapshotted by an independent copy (AccountTracker.Copy never hands back its receiver or shares its map), otherwise a SELFDESTRUCT in a reverted frame stays marked and a merely touched contract — code, storage, balance — is destroyed by a successful transaction (shared with C03-R1)", 1, func() {
+		cp := e.Fn(pkgEvmVM, "AccountTracker.Copy")
+		ma := &mutationAnalysis{e: e, pkg: pkgEvmVM, memo: map[*ssa.Function]int{}}
+		al, why := ma.copyAliases(cp, 3)
+		r.Check(!al, "x/evm/vm.AccountTracker.Copy › independent copy", e.Pos(cp.Pos()), "fresh map filled from the receiver", "the copy of the self-destruct / touched set can alias the live set ("+why+"): marks made in a frame that is later reverted survive the revert, and CommitMultiStore destroys an account that did not self-destruct")
+	})
+
 	r.Rule("R6", "CENSUS", "the StateDB debits accounts only through bank.SendCoinsFromAccountToModule (which enforces vesting locks) paired with BurnCoins; no other bank mutator is called from package vm", 4, func() {
 		allowed := map[string]bool{"GetBalance": true, "GetAllBalances": true, "MintCoins": true, "BurnCoins": true, "SendCoinsFromModuleToAccount": true, "SendCoinsFromAccountToModule": true, "SpendableCoins": true, "GetSupply": true, "HasBalance": true}
 		bankI := e.Iface(SDK+"/x/bank/keeper", "Keeper")
